@@ -172,7 +172,8 @@ def silkDtxRes (fi : FrameIn) (p : Pre) (o : FrameOr) (calls : List Call) : Fram
   { ret := 1, abort := false,
     toc := genToc p.st.mode (p.st.fs / fi.frameSize) (silkCurrBw p.st o) p.st.streamChannels, payload := 0,
     hdr := [genToc p.st.mode (p.st.fs / fi.frameSize) (silkCurrBw p.st o) p.st.streamChannels],
-    dtx := true, st := silkSt2 p o, calls }
+    -- :2134-2136 (fix 88264869): SILK has consumed the frame with this many channels
+    dtx := true, st := { (silkSt2 p o) with prevChannels := p.st.streamChannels }, calls }
 
 /-- opus_encoder.c:1931-2135 (SILK processing).  In CELT-only mode nothing happens. -/
 def frSilk (fi : FrameIn) (p : Pre) (o : FrameOr) : Step Mid :=
